@@ -45,6 +45,7 @@ type Step struct {
 	Task    int
 	Enabled []int
 	Point   string // the point the task was parked at when chosen ("start" initially)
+	After   string // where the step ended: a yield point, "done" or "blocked"
 }
 
 // Result of one controlled execution.
@@ -208,6 +209,7 @@ func Run(fns []func(), preempt func(point string) bool, choose Chooser) Result {
 		cur.resume <- struct{}{}
 		// wait until cur parks, ends or blocks
 		spins := 0
+		stepIx := len(res.Steps) - 1
 		for cur.st == running {
 			select {
 			case ev := <-events:
@@ -222,6 +224,14 @@ func Run(fns []func(), preempt func(point string) bool, choose Chooser) Result {
 					return res
 				}
 			}
+		}
+		switch cur.st {
+		case parked:
+			res.Steps[stepIx].After = cur.point
+		case done:
+			res.Steps[stepIx].After = "done"
+		case blocked:
+			res.Steps[stepIx].After = "blocked"
 		}
 	}
 }
